@@ -237,6 +237,38 @@ func variants(thorough bool) []variant {
 			return frame(h), 0, ""
 		})
 	}
+	// the domain carried in another ASN.1 string type (the decoder accepts several), with bytes that
+	// are legal / not legal in that type: whatever is decoded must be refused or handled - a value
+	// that decodes but cannot be encoded again must not take the receiver down
+	for _, st := range []struct {
+		name string
+		tag  byte
+	}{{"utf8", 0x0c}, {"printable", 0x13}, {"t61", 0x14}, {"ia5", 0x16}, {"numeric", 0x12}, {"bmp", 0x1e}, {"general", 0x1b}, {"octets", 0x04}} {
+		for _, fill := range []struct {
+			name string
+			b    []byte
+		}{{"same-text", []byte("dom1")}, {"high-bytes", []byte{0xff, 0xfe, 0xfd, 0xfc}}, {"zero-bytes", []byte{0, 0, 0, 0}}, {"utf8-overlong", []byte{0xc0, 0xaf, 0xc0, 0xaf}}} {
+			st, fill := st, fill
+			add("domain", fmt.Sprintf("domain-as-%s-string-%s", st.name, fill.name), func(e *env, b, ob, of []byte) ([]byte, uint16, string) {
+				h := validHandshake(e.ids[0], b)
+				raw := h.Bytes()
+				// the domain is the first element of the sequence: PrintableString, length 4, "dom1"
+				i := bytes.Index(raw, append([]byte{0x13, 4}, "dom1"...))
+				if i < 0 || i > 8 {
+					panic("c16: the domain element was not found where the encoder puts it")
+				}
+				raw = append([]byte(nil), raw...)
+				raw[i] = st.tag
+				copy(raw[i+2:], fill.b)
+				// accepted only if what was decoded is the registered domain *and* the signature
+				// (over the re-encoded handshake) still holds: every other outcome is "nothing"
+				if fill.name == "same-text" && (st.tag == 0x0c || st.tag == 0x13 || st.tag == 0x14 || st.tag == 0x16 || st.tag == 0x1b) {
+					return netlib.FrameHandshake(raw), 1, "dom1" // decodes to "dom1", re-encodes to the signed bytes
+				}
+				return netlib.FrameHandshake(raw), 0, ""
+			})
+		}
+	}
 	for _, d := range []string{"", "dom2", "dom", "dom11", "DOM1"} {
 		d := d
 		add("domain", fmt.Sprintf("domain=%q-not-resigned", d), func(e *env, b, ob, of []byte) ([]byte, uint16, string) {
